@@ -294,8 +294,7 @@ def run_scan(ctx):
     h = ctx.harness("default")
     exprs = set()
     for c in cases:
-        if not c["err"]:
-            exprs.update(spec_exprs(mirror_parts(c["parts"])))
+        exprs.update(c["log"])
     exprs = sorted(exprs)
     alone = {}
     for t, resp in zip(exprs, h.run([{"op": "parse", "src": "(" + t + ")", "mode": "Expression"} for t in exprs])):
@@ -303,21 +302,14 @@ def run_scan(ctx):
             alone[t] = resp["ok"]["body"]
     reqs = [{"op": "parse", "src": 'f"%s"' % c["body"], "mode": "Expression"} for c in cases]
     kinds = ctx.extra.setdefault("scan_outcomes", {})
-    # the implementation parses a field's expression as soon as the field is closed: a malformed expression in a
-    # completed field is reported before any later scanning error.  Every prefix of a body is a body of the table.
-    bad_prefix = {}
-    for c in cases:
-        if not c["err"] and any(t not in alone for t in spec_exprs(mirror_parts(c["parts"]))):
-            bad_prefix[c["body"]] = True
     for c, req, resp in zip(cases, reqs, h.run(reqs)):
         ctx.replayed += 1
         src = req["src"]
-        base = {"fam": "scan", "src": src, "err": c["err"], "parts": c["parts"]}
+        base = {"fam": "scan", "src": src, "err": c["err"], "parts": c["parts"], "log": c["log"]}
         parts = mirror_parts(c["parts"])
-        bad_expr = [t for t in spec_exprs(parts) if t not in alone] if not c["err"] else []
-        want = c["err"] or ("InvalidExpression" if bad_expr else "ok")
-        if c["err"] and any(c["body"][:n] in bad_prefix for n in range(1, len(c["body"]))):
-            want = "InvalidExpression"
+        # the implementation parses a field's expression the moment the field is closed (log = closing order): a
+        # malformed expression in a closed field is reported before any later scanning error
+        want = "InvalidExpression" if any(t not in alone for t in c["log"]) else (c["err"] or "ok")
         kinds[want] = kinds.get(want, 0) + 1
         if "ok" in resp:
             got = "ok"
@@ -359,15 +351,14 @@ def run(ctx):
 
 def replay_scan(ctx, c, h):
     parts = mirror_parts(c["parts"])
-    texts = sorted(set(spec_exprs(parts)))
+    texts = sorted(set(c.get("log", [])) | set(spec_exprs(parts)))
     alone = {}
     for t, resp in zip(texts, h.run([{"op": "parse", "src": "(" + t + ")", "mode": "Expression"} for t in texts])):
         if "ok" in resp:
             alone[t] = resp["ok"]["body"]
     resp = h.run([{"op": "parse", "src": c["src"], "mode": "Expression"}])[0]
     ctx.replayed += 1
-    bad = [t for t in texts if t not in alone] if not c["err"] else []
-    want = c["err"] or ("InvalidExpression" if bad else "ok")
+    want = "InvalidExpression" if any(t not in alone for t in c.get("log", [])) else (c["err"] or "ok")
     got = "ok" if "ok" in resp else "error"
     if (want == "ok") != (got == "ok"):
         ctx.mismatch("scan.outcome:%s->%s" % (want, got), {"observed": str(resp)[:200]}, c)
